@@ -53,7 +53,12 @@ RULE = ("torus cases: for chosen (w, h, source chip) every or many destination c
         "mesh cases: destinations within the searched radius of a source; random draws recorded; "
         "non-trivial = a torus pair whose distance is smaller than the no-wrap distance or with tied minimal "
         "approaches or a spiral draw, a mesh pair with a non-zero vector, an LDF vector with >= 2 non-zero "
-        "dimensions, a hexagon radius >= 1, a links_between query with a non-empty answer; distinct = distinct canonical JSON")
+        "dimensions, a hexagon radius >= 1, a links_between query with a non-empty answer; generator histories: "
+        "2-6 concentric_hexagons generators per history from fresh module state, sequential / interleaved / mixed, "
+        "partially consumed (cut at 0, 1, ring boundaries +-1, mid-ring, side corners, all-but-one) then closed, "
+        "dropped or left alive, every fully consumed result compared with the (pure) model and the Lean hexagon "
+        "oracle, every prefix with the model's prefix; non-trivial = at least one abandoned generator or interleaving; "
+        "distinct = distinct canonical JSON")
 
 
 class Rec(object):
@@ -199,9 +204,51 @@ def run_impl(c):
         m = Machine(c["w"], c["h"], dead_chips=set(tuple(p) for p in c["dead_chips"]),
                     dead_links=set((x, y, L(l)) for x, y, l in c["dead_links"]))
         o["lb"] = call(lambda: sorted(int(l) for l in rutils.links_between(tuple(c["a"]), tuple(c["b"]), m)))
+    elif k == "hex_history":
+        o["hist"] = call(lambda: run_hex_history(c["ops"]))
     elif k == "hexagons":
         o["hex"] = call(lambda: [ints(p) for p in geometry.concentric_hexagons(c["r"], tuple(c["start"]))])
     return o
+
+
+def run_hex_history(ops):
+    """A history of generator operations on rig.geometry.concentric_hexagons, starting from freshly
+    initialised module-level state (the module is re-executed before and after, so that the case
+    behaves as in a fresh interpreter and leaves nothing behind for later cases).
+    ops: ["new", id, radius, [x, y]] | ["next", id, k] | ["drain", id] | ["close", id] | ["drop", id].
+    Returns {id: {"r", "start", "out": [...], "done": bool}}."""
+    import importlib
+    from rig import geometry
+    importlib.reload(geometry)
+    gens, res = {}, {}
+    try:
+        for op in ops:
+            g = str(op[1])
+            if op[0] == "new":
+                gens[g] = geometry.concentric_hexagons(op[2], tuple(op[3]))
+                res[g] = {"r": op[2], "start": list(op[3]), "out": [], "done": False}
+            elif op[0] == "next":
+                for _ in range(op[2]):
+                    if g not in gens or res[g]["done"]:
+                        break
+                    try:
+                        res[g]["out"].append(ints(next(gens[g])))
+                    except StopIteration:
+                        res[g]["done"] = True
+            elif op[0] == "drain":
+                if g in gens and not res[g]["done"]:
+                    for p in gens[g]:
+                        res[g]["out"].append(ints(p))
+                    res[g]["done"] = True
+            elif op[0] == "close":
+                if g in gens:
+                    gens.pop(g).close()
+            elif op[0] == "drop":
+                gens.pop(g, None)      # CPython finalises (closes) the generator at once
+    finally:
+        gens.clear()
+        importlib.reload(geometry)
+    return res
 
 
 # --------------------------------------------------------------------------
@@ -399,6 +446,37 @@ def eval_cases(ctx, cases):
                 ask(L("spec_links_between", **req), chk)
                 nontriv = bool(o["lb"]["ok"])
                 ctx.tag("lb_%d" % len(o["lb"]["ok"]))
+        elif k == "hex_history":
+            if "err" in o["hist"]:
+                ctx.violation("exception-on-valid-input", "concentric_hexagons raised %r during %r" % (
+                    o["hist"], c["ops"]), c_desc)
+            else:
+                order = [str(op[1]) for op in c["ops"] if op[0] == "new"]
+                n_partial = 0
+                for g in order:
+                    e = o["hist"]["ok"][g]
+                    first = g == order[0] and all(op[0] != "new" or str(op[1]) == g for op in
+                                                  c["ops"][:max(i for i, op in enumerate(c["ops"])
+                                                                if str(op[1]) == g and op[0] in ("next", "drain", "new")) + 1])
+                    key = "hexagons-wrong" if first else "hexagons-history-dependent"
+
+                    def cmp_h(model, e=e, g=g, c_desc=c_desc):
+                        want = model if e["done"] else model[:len(e["out"])]
+                        if e["out"] != want:
+                            ctx.mismatch("c11.hexagons_history", "generator %s (r=%d start=%r, %s): impl=%r model=%r" % (
+                                g, e["r"], e["start"], "exhausted" if e["done"] else "first %d" % len(e["out"]),
+                                e["out"], want), c_desc)
+                    ask(L("hexagons", r=e["r"], start=e["start"]), cmp_h)
+                    if e["done"] and e["r"] >= 0:
+                        ask(L("spec_hexagons", r=e["r"], start=e["start"], out=e["out"]),
+                            spec_true(key, "after the generator history %r, the fully consumed "
+                                      "concentric_hexagons(%d, %r) (generator %s) yielded %d chips which are not exactly "
+                                      "the chips within the radius, each once, nearest first" % (
+                                          c["ops"], e["r"], e["start"], g, len(e["out"]))))
+                    if not e["done"]:
+                        n_partial += 1
+                ctx.tag("hexhist_%s" % c.get("shape", "seq"), "hexhist_partial_%d" % min(n_partial, 3))
+                nontriv = n_partial >= 1 or c.get("shape") == "interleave"
         elif k == "hexagons":
             ask(L("hexagons", r=c["r"], start=c["start"]), cmp("hexagons", o["hex"].get("ok")))
             if "err" in o["hex"]:
@@ -544,6 +622,85 @@ def gen_float_edge(ctx, sizes):
     return cases
 
 
+def _cut_points(rng, r):
+    """interesting numbers of elements to take from concentric_hexagons(r): 0, 1, ring boundaries,
+    one either side of them, mid-ring, all but one, all"""
+    total = 1 + 3 * r * (r + 1) if r >= 0 else 1
+    bounds = [1 + 3 * j * (j + 1) for j in range(0, max(r, 0) + 1)]
+    pts = [0, 1, total - 1, total, total + 2]
+    for b in bounds:
+        pts += [b, b + 1, b - 1]
+    for j in range(1, max(r, 0) + 1):
+        lo = 1 + 3 * (j - 1) * j
+        pts += [lo + rng.randrange(1, 6 * j), lo + j, lo + 3 * j]     # mid-ring, side corners
+    return [p for p in pts if p >= 0]
+
+
+def gen_hex_history(ctx, n, max_r):
+    """histories of 2-6 generators: some only partially consumed (then closed, dropped or left alive),
+    followed by / interleaved with fully consumed ones"""
+    rng = ctx.rng
+    cases = []
+    for i in range(n):
+        n_gen = rng.randrange(2, 7)
+        shape = rng.choice(["seq", "seq", "interleave", "mixed"])
+
+        def new_gen(g):
+            r = rng.choice([0, 1, 2, 2, 3, 3, 4, rng.randrange(0, max_r + 1), rng.randrange(0, max_r + 1)])
+            if rng.random() < 0.03:
+                r = -1
+            start = rng.choice([[0, 0], [rng.randrange(-9, 10), rng.randrange(-9, 10)]])
+            return r, start
+        ops = []
+        if shape == "seq":
+            # sequential calls; at least one abandoned part-way, the last one always consumed fully
+            n_partial = 0
+            for g in range(n_gen):
+                r, start = new_gen(g)
+                ops.append(["new", g, r, start])
+                last = g == n_gen - 1
+                if not last and (rng.random() < 0.6 or (g == 0 and n_partial == 0)):
+                    ops.append(["next", g, rng.choice(_cut_points(rng, r))])
+                    end = rng.choice(["close", "drop", "keep"])
+                    if end != "keep":
+                        ops.append([end, g])
+                    n_partial += 1
+                else:
+                    ops.append(["drain", g])
+        elif shape == "interleave":
+            # all generators alive at once, advanced in turn by small random steps, then drained
+            gens = []
+            for g in range(n_gen):
+                r, start = new_gen(g)
+                ops.append(["new", g, r, start])
+                gens.append(g)
+            for _ in range(rng.randrange(4, 40)):
+                ops.append(["next", rng.choice(gens), rng.choice([1, 1, 1, 2, 3, 5, 7, 12])])
+            rng.shuffle(gens)
+            for g in gens:
+                ops.append(["drain", g])
+        else:
+            # generators created at different times, partially advanced, some abandoned, the rest drained
+            alive = []
+            for g in range(n_gen):
+                r, start = new_gen(g)
+                ops.append(["new", g, r, start])
+                alive.append((g, r))
+                for _ in range(rng.randrange(0, 4)):
+                    h, hr = rng.choice(alive)
+                    ops.append(["next", h, rng.choice(_cut_points(rng, hr) + [1, 2, 3])])
+                if len(alive) > 1 and rng.random() < 0.4:
+                    h, hr = alive.pop(rng.randrange(len(alive)))
+                    ops.append([rng.choice(["close", "drop"]), h])
+            rng.shuffle(alive)
+            for h, hr in alive:
+                ops.append(["drain", h])
+            r, start = new_gen(n_gen)
+            ops += [["new", n_gen, r, start], ["drain", n_gen]]
+        cases.append({"kind": "hex_history", "shape": shape, "ops": ops})
+    return cases
+
+
 def gen_malformed(ctx, n):
     rng = ctx.rng
     cases = []
@@ -585,6 +742,7 @@ def run(ctx):
         cases += gen_mesh(ctx, 6 * mult, 120, 7)
         cases += gen_ldf(ctx, 500 * mult)
         cases += gen_malformed(ctx, 60)
+        cases += gen_hex_history(ctx, 400 * mult, 7)
         cases += gen_float_edge(ctx, [(3, 3), (4, 4), (2, 5), (5, 2), (1, 4), (6, 3)])
     else:
         allsizes = [(w, h) for w in range(1, 17) for h in range(1, 17)]
@@ -597,6 +755,7 @@ def run(ctx):
         cases += gen_mesh(ctx, 40, 400, 12)
         cases += gen_ldf(ctx, 20000)
         cases += gen_malformed(ctx, 500)
+        cases += gen_hex_history(ctx, 6000, 12)
         cases += gen_float_edge(ctx, [(w, h) for w in range(1, 7) for h in range(1, 7)])
         ctx.exhaustive = True
     for i in range(0, len(cases), 4000):
